@@ -43,6 +43,7 @@ func runC19(c *Ctx) {
 		return
 	}
 	rp := c.readPath()
+	c.c19ReaderUnwrapped(rm)
 	// ---- R1 (library read path) ----
 	hdrRA, bodyRA := c.streamReadSites(rp)
 	if len(hdrRA) != 1 || len(bodyRA) == 0 {
@@ -598,4 +599,118 @@ func (c *Ctx) streamReadSites(rp map[*ssa.Function]bool) (hdrRA, bodyRA []raSite
 		}
 	}
 	return hdrRA, bodyRA
+}
+
+// c19ReaderUnwrapped: R1 — ReadMessage recognises a multi-stream source by asserting its reader to
+// MultistreamReader. Where the library itself knows the transport to be multi-stream (a comma-ok assertion to a
+// Multistream* interface in the function that calls ReadMessage) the value it passes is that very connection,
+// not an object wrapped around it: a wrapper that only offers Read makes the association look like a byte
+// stream, so the message's stream is reported as 0 and the answer leaves on stream 0.
+func (c *Ctx) c19ReaderUnwrapped(rm *ssa.Function) {
+	r := c.R
+	n := 0
+	for _, f := range c.P.LibraryFuncs() {
+		if pkgOf(f).Path() != pkgDiam {
+			continue
+		}
+		var asserts []*ssa.TypeAssert
+		flow.Instrs(f, func(in ssa.Instruction) {
+			if ta, ok := in.(*ssa.TypeAssert); ok && ta.CommaOk {
+				if nt := flow.NamedOf(ta.AssertedType); nt != nil && strings.HasPrefix(nt.Obj().Name(), "Multistream") {
+					asserts = append(asserts, ta)
+				}
+			}
+		})
+		if len(asserts) == 0 {
+			continue
+		}
+		isAsserted := func(v ssa.Value) bool {
+			v = flow.PeelNoConvert(v)
+			ex, ok := v.(*ssa.Extract)
+			if !ok || ex.Index != 0 {
+				return false
+			}
+			for _, ta := range asserts {
+				if ex.Tuple == ssa.Value(ta) {
+					return true
+				}
+			}
+			return false
+		}
+		var expand func(v ssa.Value, d int, seen map[ssa.Value]bool) []ssa.Value
+		expand = func(v ssa.Value, d int, seen map[ssa.Value]bool) []ssa.Value {
+			if seen[v] || d > 6 {
+				return nil
+			}
+			seen[v] = true
+			if ph, ok := v.(*ssa.Phi); ok {
+				var out []ssa.Value
+				for _, e := range ph.Edges {
+					out = append(out, expand(e, d+1, seen)...)
+				}
+				return out
+			}
+			return []ssa.Value{v}
+		}
+		for _, ci := range flow.CallInstrs(f) {
+			if flow.StaticCallee(ci) != rm || len(ci.Common().Args) == 0 {
+				continue
+			}
+			n++
+			key := fname(f) + ":multistream-reader-unwrapped"
+			direct, bad := false, ""
+			for _, src := range expand(ci.Common().Args[0], 0, map[ssa.Value]bool{}) {
+				if isAsserted(src) {
+					direct = true
+					continue
+				}
+				// a freshly built object that holds the connection (or a reader made of it) in a field
+				if al, ok := flow.PeelNoConvert(src).(*ssa.Alloc); ok {
+					for _, ref := range flow.Referrers(al) {
+						fa, ok := ref.(*ssa.FieldAddr)
+						if !ok {
+							continue
+						}
+						for _, r2 := range flow.Referrers(fa) {
+							st, ok := r2.(*ssa.Store)
+							if !ok {
+								continue
+							}
+							for _, held := range expand(st.Val, 0, map[ssa.Value]bool{}) {
+								if isAsserted(held) {
+									bad = "the multi-stream connection is handed to ReadMessage inside a wrapper (" + short(al.Type().String(), 40) + ") that does not offer the multi-stream read interface"
+								}
+							}
+						}
+					}
+				}
+			}
+			switch {
+			case bad != "":
+				r.Fail("R1", key, c.pos(ci), bad+": ReadMessage then reads it as a plain byte stream, reports stream 0 for every message and the answers leave on stream 0")
+			case !direct && len(asserts) > 0 && f.Name() != "ReadMessage":
+				// the function tests for a multi-stream transport but never reads it as one
+				sawOther := false
+				for _, cj := range flow.CallInstrs(f) {
+					if flow.StaticCallee(cj) == rm && cj != ci {
+						for _, src := range expand(cj.Common().Args[0], 0, map[ssa.Value]bool{}) {
+							if isAsserted(src) {
+								sawOther = true
+							}
+						}
+					}
+				}
+				if sawOther {
+					r.Ok("R1", key, c.pos(ci), "this call serves the transports that are not multi-stream; another call of the function passes the asserted connection")
+				} else {
+					r.Fail("R1", key, c.pos(ci), "the function recognises a multi-stream transport but never passes the asserted connection itself to ReadMessage: the association is read as a plain byte stream and every message reports stream 0")
+				}
+			default:
+				r.Ok("R1", key, c.pos(ci), "on the multi-stream edge ReadMessage is given the asserted connection itself")
+			}
+		}
+	}
+	if n == 0 {
+		r.Trivial("R1", "multistream-reader-unwrapped:no-site", "-", "no library function both recognises a multi-stream transport and calls ReadMessage")
+	}
 }
